@@ -518,6 +518,15 @@ func VaryForJSON(tag string, v any) uint64 {
 }
 
 // applyVary: valid non-default values for knobs the properties do not mention (see DESIGN 11.4, round 4).
+// ApplyVary is applyVary for harnesses that assemble their configuration themselves (zero seed: nothing changes);
+// the returned scratch directories are the caller's to remove.
+func ApplyVary(cfg *config.Config, seed uint64) (tmp []string) {
+	if seed == 0 {
+		return nil
+	}
+	return applyVary(cfg, seed)
+}
+
 func applyVary(cfg *config.Config, seed uint64) (tmp []string) {
 	r := vlib.NewRng(seed)
 	cfg.Server.RequestLogging = r.Chance(3, 4)
